@@ -234,8 +234,10 @@ def transition_case(spec, ctx):
 @st.composite
 def fit_cases(draw):
     grid = {}
-    inn = draw(st.lists(st.sampled_from([None, 1.0, 3.0, 5.0, 8.0]), min_size=1, max_size=3, unique=True))
-    if draw(st.booleans()) or len(inn) > 1:
+    kind = draw(st.sampled_from(["single-none", "single-value", "multi", "multi", "absent"]))
+    inn = {"single-none": [None], "single-value": [draw(st.sampled_from([1.0, 3.0, 8.0]))], "absent": None,
+           "multi": draw(st.lists(st.sampled_from([None, 1.0, 3.0, 5.0, 8.0]), min_size=2, max_size=3, unique=True))}[kind]
+    if inn is not None:
         grid["innovation_filtering"] = inn
     budget = 4 // max(1, len(grid.get("innovation_filtering", [1])))
     if budget >= 2 and draw(st.booleans()):
@@ -271,6 +273,8 @@ def fit_case(spec, ctx):
         ctx.event(f"fit_outcome:{type(e).__name__}")
         return
     ctx.event("fit_outcome:success")
+    for field, vals in spec["grid"].items():
+        ctx.event(f"grid:{field}:{'singleton' if len(vals) == 1 else 'multi'}{':None' if vals == [None] else ''}")
     if state.state_id() != sm.StateId.Fit_Model:
         ctx.fail("path-from-search-does-not-reach-target", f"{path} ended in {state.state_id()}", spec)
     if state.history() != [sm.StateId.Start, sm.StateId.Symbolic_Model, sm.StateId.Fit_Model]:
